@@ -801,16 +801,30 @@ def replay_gated(pid, r, want, env):
             'fake/exec/exec.go': FAKE_EXEC, 'fake/time/time.go': FAKE_TIME,
             'wos/wos.go': WOS_FILE_HEAD + body + '\n',
         }
-        sched = gated_schedule(v)
-        lit = '[][2]string{' + ', '.join('{"%s", "%s"}' % (a, b) for a, b in sched) + '}'
+        sched0 = gated_schedule(v)
+        # Channel operations and select are the real ones and cannot be held back: a goroutine blocked
+        # in a select proceeds the moment a case becomes ready. An environment event that the schedule
+        # places after such ungated steps is independent of them, so the run in which it happens just
+        # before them is the same run of the system; that variant is tried as well.
+        early = list(sched0)
+        for i in range(len(early)):
+            if early[i][0] == 'env':
+                j = i
+                # (a deadline or timer event also commutes with the waiting goroutine's Cmd.Wait, which reads neither)
+                while j > 0 and (early[j - 1][0] == 'settle' or (early[j - 1] == ('op', 'Wait') and early[j][1] in ('deadline-fires', 'timer-fires', 'derived-timeout-fires'))):
+                    early[j - 1], early[j] = early[j], early[j - 1]
+                    j -= 1
         b = lambda k: 'true' if fc.get(k) == 'True' else 'false'
-        files['wos/replay_test.go'] = WOS_TEST % dict(sched=lit, dl=b('DEADLINE_SET'), self=b('EXITS_BY_ITSELF'), ign=b('IGNORES_INTERRUPT'), fails=b('SELF_FAILS'), kd=50)
         for name, text in files.items():
             path = os.path.join(d, name)
             os.makedirs(os.path.dirname(path), exist_ok=True)
             open(path, 'w').write(text)
         last = ''
-        for attempt in range(5):   # a select with two ready cases picks at random: retry
+        variants = [sched0] + ([early] if early != sched0 else [])
+        for attempt in range(6):   # a select with two ready cases picks at random: retry
+            sched = variants[attempt % len(variants)]
+            lit = '[][2]string{' + ', '.join('{"%s", "%s"}' % (a, b2) for a, b2 in sched) + '}'
+            open(os.path.join(d, 'wos/replay_test.go'), 'w').write(WOS_TEST % dict(sched=lit, dl=b('DEADLINE_SET'), self=b('EXITS_BY_ITSELF'), ign=b('IGNORES_INTERRUPT'), fails=b('SELF_FAILS'), kd=50))
             p = subprocess.run(['go', 'test', '-count=1', '-vet=off', '-timeout', '60s', '-run', '^TestReplay$', '-v', './wos'], cwd=d, capture_output=True, text=True, env=env)
             out = p.stdout + p.stderr
             rl = [l for l in out.split('\n') if l.startswith('REPLAY ')]
